@@ -80,7 +80,11 @@ class LineSet(primitive.Primitive):
         self.index = index
         self.indices = self.index
         self.nindices = max_offset + 1
-        self.index.shape = (-1, 2, self.nindices)
+        try:
+            self.index.shape = (-1, 2, self.nindices)
+        except ValueError:
+            raise DaeMalformedError('Line set index of size %d is not a multiple of 2 corners x %d inputs'
+                                    % (self.index.size, self.nindices))
         self.nlines = len(self.index)
 
         if len(self.index) > 0:
